@@ -293,6 +293,29 @@ func runC09(c *Check, a *Analysis) {
 
 	ruleUpgradeOwner(c, a, "R-UPGRADE-OWNER")
 	ruleStreamCtxStable(c, a, "R-STREAM-CTX-STABLE")
+	// the stream's single long-lived Call is a shared slot: per-message data must not cross the queue hop in it
+	c.Rule("R-STREAM-SLOT", "when a stream message is delivered through a queued task, the message bytes are stored into the stream's shared Call only inside that task (never by the reader before queueing): the reader would overwrite the slot with the next message before the worker delivers the previous one", 1)
+	for _, l := range pendingOps(p, "lookup") {
+		fn := l.Fn
+		if len(pendingOps2(p, topParent(fn), "update")) > 0 {
+			continue
+		}
+		lk := l.Instr.(*ssa.Lookup)
+		for _, ev := range eventsOf(fn, "(*Call).streaming") {
+			cc, isCall := ev.(*ssa.Call)
+			if !isCall || calleeName(cc) == "(*Call).streaming" {
+				continue // inline delivery (direct I/O): no hop
+			}
+			var bad ssa.Instruction
+			for _, s := range p.fieldStoresIn(fn, "Call", "Value") {
+				_, base, _ := fieldOfAddr(s.Addr)
+				if p.sameVarOrigin(base, lk) && p.canReach(s, ev, nil) {
+					bad = s
+				}
+			}
+			c.Ob("R-STREAM-SLOT", sc.key(fn, "message stored inside the queued task"), p.InstrPos(ev), bad == nil, ifs(bad != nil, "the reader stores the message into the stream's shared Call at "+p.At(bad)+" and then queues the delivery: back-to-back messages overwrite each other (loss and duplication)"))
+		}
+	}
 
 	// ---- alias / use-after-release for stream payloads
 	ruleAliasSinks(c, a, "R-ALIAS", FieldRef{"event", "Value"})
@@ -366,98 +389,7 @@ func runC10(c *Check, a *Analysis) {
 	ls := a.Locks()
 	sc := siteCounter{}
 
-	// ---- R-STOP
-	c.Rule("R-STOP", "stream.stop stores the closed flag inside stream.mut and broadcasts on every path; ReadMessage re-tests the flag after every Cond.Wait before touching the queue; WriteMessage tests it before writing; Close stops before closing the transport side", 5)
-	if stop := p.Fn("(*stream).stop"); stop == nil {
-		c.Undecided("R-STOP", "(*stream).stop not found")
-	} else {
-		nSet := 0
-		eachInstr(stop, func(in ssa.Instruction) {
-			cc, ok := in.(*ssa.Call)
-			if !ok || calleeName(cc) != "sync/atomic.StoreInt32" {
-				return
-			}
-			if fr, _, ok := fieldOfAddr(cc.Call.Args[0]); ok && fr.Struct == "stream" && fr.Field == "closed" {
-				nSet++
-				held := ls.Held(in, "stream.mut")
-				c.Ob("R-STOP", sc.key(stop, "closed=1 under stream.mut"), p.InstrPos(in), held, ifs(!held, "the closed flag is set outside stream.mut: a reader can test the flag, miss the broadcast and block forever"))
-				_, tr, okp := p.mustPass(stop, nil, func(x ssa.Instruction) bool { return x == in })
-				c.Ob("R-STOP", sc.key(stop, "closed=1 on every path"), p.InstrPos(in), okp, ifs(!okp, "a path through stop does not set the flag ("+p.lineTrail(tr)+")"))
-			}
-		})
-		if nSet == 0 {
-			c.Ob("R-STOP", sc.key(stop, "closed=1 under stream.mut"), stop.Pos(), false, "stop does not set stream.closed")
-		}
-		_, tr, okp := p.mustPass(stop, nil, func(x ssa.Instruction) bool { return isCallTo(x, "(*sync.Cond).Broadcast") })
-		c.Ob("R-STOP", sc.key(stop, "Broadcast on every path"), stop.Pos(), okp, ifs(!okp, "a path through stop does not broadcast ("+p.lineTrail(tr)+"): blocked readers are never woken"))
-	}
-	isClosedTest := func(x ssa.Instruction) bool {
-		cc, ok := x.(*ssa.Call)
-		if !ok || calleeName(cc) != "sync/atomic.LoadInt32" {
-			return false
-		}
-		fr, _, ok := fieldOfAddr(cc.Call.Args[0])
-		return ok && fr.Struct == "stream" && fr.Field == "closed"
-	}
-	if rm := p.Fn("(*stream).ReadMessage"); rm == nil {
-		c.Undecided("R-STOP", "(*stream).ReadMessage not found")
-	} else {
-		waits := callsIn(rm, "(*sync.Cond).Wait")
-		if len(waits) == 0 {
-			c.Undecided("R-STOP", "ReadMessage does not wait on the condition variable")
-		}
-		for _, w := range waits {
-			var hit ssa.Instruction
-			_, tr, found := p.reachFrom(rm, w.(ssa.Instruction), func(x ssa.Instruction) bool {
-				if v, ok := x.(ssa.Value); ok && isLoadOf(v, "stream", "events") {
-					hit = x
-					return true
-				}
-				return x == w.(ssa.Instruction)
-			}, isClosedTest)
-			det := ""
-			if found {
-				det = "after Cond.Wait the queue is examined (or Wait is re-entered) at " + p.At(hit) + " without re-testing the closed flag (" + p.lineTrail(tr) + "): a reader woken by stop() blocks again forever"
-			}
-			c.Ob("R-STOP", sc.key(rm, "re-test closed after Wait"), p.InstrPos(w), !found, det)
-		}
-		// first test before the first wait
-		for _, w := range waits {
-			_, _, found := p.reachFrom(rm, nil, func(x ssa.Instruction) bool { return x == w.(ssa.Instruction) }, isClosedTest)
-			c.Ob("R-STOP", sc.key(rm, "closed tested before first Wait"), p.InstrPos(w), !found, ifs(found, "ReadMessage can wait without ever testing the closed flag"))
-		}
-	}
-	if wm := p.Fn("(*stream).WriteMessage"); wm == nil {
-		c.Undecided("R-STOP", "(*stream).WriteMessage not found")
-	} else {
-		eachInstr(wm, func(in ssa.Instruction) {
-			cc, ok := in.(*ssa.Call)
-			if !ok || !isLoadOf(p.canon(cc.Common().Value), "stream", "write") {
-				return
-			}
-			g, _ := p.guardedBy(in, negate(matchAtomicFlag("stream", "closed")))
-			c.Ob("R-STOP", sc.key(wm, "closed tested before write"), p.InstrPos(in), g, ifs(!g, "WriteMessage writes without testing the closed flag"))
-		})
-	}
-	if cl := p.Fn("(*stream).Close"); cl == nil {
-		c.Undecided("R-STOP", "(*stream).Close not found")
-	} else {
-		stops := callsIn(cl, "(*stream).stop")
-		ok := len(stops) > 0
-		eachInstr(cl, func(in ssa.Instruction) {
-			cc, isC := in.(*ssa.Call)
-			if !isC || !isLoadOf(p.canon(cc.Common().Value), "stream", "close") {
-				return
-			}
-			for _, s := range stops {
-				if !p.dominatesInstr(s.(ssa.Instruction), in) {
-					ok = false
-				}
-			}
-		})
-		_, _, okp := p.mustPass(cl, nil, func(x ssa.Instruction) bool { return isCallTo(x, "(*stream).stop") })
-		c.Ob("R-STOP", sc.key(cl, "stop before close, on every path"), cl.Pos(), ok && okp, ifs(!(ok && okp), "stream.Close does not call stop() first on every path"))
-	}
+	ruleStop(c, a, "R-STOP")
 
 	// ---- client reader exit stops streams
 	c.Rule("R-READER-STOPS-STREAMS", "the client reader's exit ranges over Conn.streams stopping every stream, inside the critical section that sets Conn.shutdown, on every path", 2)
@@ -725,4 +657,104 @@ func baseAddr(v ssa.Value) ssa.Value {
 		return u.X
 	}
 	return v
+}
+
+// ruleStop is shared by C10 and C03.
+func ruleStop(c *Check, a *Analysis, rule string) {
+	p := c.P
+	ls := a.Locks()
+	sc := siteCounter{}
+	// ---- R-STOP
+	c.Rule(rule, "stream.stop stores the closed flag inside stream.mut and broadcasts on every path; ReadMessage re-tests the flag after every Cond.Wait before touching the queue; WriteMessage tests it before writing; Close stops before closing the transport side", 5)
+	if stop := p.Fn("(*stream).stop"); stop == nil {
+		c.Undecided(rule, "(*stream).stop not found")
+	} else {
+		nSet := 0
+		eachInstr(stop, func(in ssa.Instruction) {
+			cc, ok := in.(*ssa.Call)
+			if !ok || calleeName(cc) != "sync/atomic.StoreInt32" {
+				return
+			}
+			if fr, _, ok := fieldOfAddr(cc.Call.Args[0]); ok && fr.Struct == "stream" && fr.Field == "closed" {
+				nSet++
+				held := ls.Held(in, "stream.mut")
+				c.Ob(rule, sc.key(stop, "closed=1 under stream.mut"), p.InstrPos(in), held, ifs(!held, "the closed flag is set outside stream.mut: a reader can test the flag, miss the broadcast and block forever"))
+				_, tr, okp := p.mustPass(stop, nil, func(x ssa.Instruction) bool { return x == in })
+				c.Ob(rule, sc.key(stop, "closed=1 on every path"), p.InstrPos(in), okp, ifs(!okp, "a path through stop does not set the flag ("+p.lineTrail(tr)+")"))
+			}
+		})
+		if nSet == 0 {
+			c.Ob(rule, sc.key(stop, "closed=1 under stream.mut"), stop.Pos(), false, "stop does not set stream.closed")
+		}
+		_, tr, okp := p.mustPass(stop, nil, func(x ssa.Instruction) bool { return isCallTo(x, "(*sync.Cond).Broadcast") })
+		c.Ob(rule, sc.key(stop, "Broadcast on every path"), stop.Pos(), okp, ifs(!okp, "a path through stop does not broadcast ("+p.lineTrail(tr)+"): blocked readers are never woken"))
+	}
+	isClosedTest := func(x ssa.Instruction) bool {
+		cc, ok := x.(*ssa.Call)
+		if !ok || calleeName(cc) != "sync/atomic.LoadInt32" {
+			return false
+		}
+		fr, _, ok := fieldOfAddr(cc.Call.Args[0])
+		return ok && fr.Struct == "stream" && fr.Field == "closed"
+	}
+	if rm := p.Fn("(*stream).ReadMessage"); rm == nil {
+		c.Undecided(rule, "(*stream).ReadMessage not found")
+	} else {
+		waits := callsIn(rm, "(*sync.Cond).Wait")
+		if len(waits) == 0 {
+			c.Undecided(rule, "ReadMessage does not wait on the condition variable")
+		}
+		for _, w := range waits {
+			var hit ssa.Instruction
+			_, tr, found := p.reachFrom(rm, w.(ssa.Instruction), func(x ssa.Instruction) bool {
+				if v, ok := x.(ssa.Value); ok && isLoadOf(v, "stream", "events") {
+					hit = x
+					return true
+				}
+				return x == w.(ssa.Instruction)
+			}, isClosedTest)
+			det := ""
+			if found {
+				det = "after Cond.Wait the queue is examined (or Wait is re-entered) at " + p.At(hit) + " without re-testing the closed flag (" + p.lineTrail(tr) + "): a reader woken by stop() blocks again forever"
+			}
+			c.Ob(rule, sc.key(rm, "re-test closed after Wait"), p.InstrPos(w), !found, det)
+		}
+		// first test before the first wait
+		for _, w := range waits {
+			_, _, found := p.reachFrom(rm, nil, func(x ssa.Instruction) bool { return x == w.(ssa.Instruction) }, isClosedTest)
+			c.Ob(rule, sc.key(rm, "closed tested before first Wait"), p.InstrPos(w), !found, ifs(found, "ReadMessage can wait without ever testing the closed flag"))
+		}
+	}
+	if wm := p.Fn("(*stream).WriteMessage"); wm == nil {
+		c.Undecided(rule, "(*stream).WriteMessage not found")
+	} else {
+		eachInstr(wm, func(in ssa.Instruction) {
+			cc, ok := in.(*ssa.Call)
+			if !ok || !isLoadOf(p.canon(cc.Common().Value), "stream", "write") {
+				return
+			}
+			g, _ := p.guardedBy(in, negate(matchAtomicFlag("stream", "closed")))
+			c.Ob(rule, sc.key(wm, "closed tested before write"), p.InstrPos(in), g, ifs(!g, "WriteMessage writes without testing the closed flag"))
+		})
+	}
+	if cl := p.Fn("(*stream).Close"); cl == nil {
+		c.Undecided(rule, "(*stream).Close not found")
+	} else {
+		stops := callsIn(cl, "(*stream).stop")
+		ok := len(stops) > 0
+		eachInstr(cl, func(in ssa.Instruction) {
+			cc, isC := in.(*ssa.Call)
+			if !isC || !isLoadOf(p.canon(cc.Common().Value), "stream", "close") {
+				return
+			}
+			for _, s := range stops {
+				if !p.dominatesInstr(s.(ssa.Instruction), in) {
+					ok = false
+				}
+			}
+		})
+		_, _, okp := p.mustPass(cl, nil, func(x ssa.Instruction) bool { return isCallTo(x, "(*stream).stop") })
+		c.Ob(rule, sc.key(cl, "stop before close, on every path"), cl.Pos(), ok && okp, ifs(!(ok && okp), "stream.Close does not call stop() first on every path"))
+	}
+
 }
